@@ -240,7 +240,7 @@ def _ca_case(cfg, values):
         calls = st['calls'] = []
 
         class O(object):
-            def __init__(o, n): o.n = n
+            def __init__(o, n): o.n = n; o._status_ = 'modified'          # the CURRENT status (an earlier hook edited the object again): not what decides the hook
             def _after_save_(o, status):
                 calls.append((o.n, status))
                 if cfg['reentrant'] and o.n == 0: cache.saved_objects.append((O(99), 'updated'))      # a hook whose edit was saved by a nested obj.flush()
